@@ -382,6 +382,8 @@ class Enc:
             a = self.M(e.expr, c, sup=sup)
             return {c: (Not_(self.any_(a)), FALSE)}
         if isinstance(e, pp.FollowedBy):
+            if cfg:
+                return {c: (TRUE, FALSE)}     # context-free reading: positive lookahead over-approximated
             a = self.M(e.expr, c, do_pre=False, sup=sup)
             return {c: (self.any_(a), FALSE)}
         if isinstance(e, (pp.SkipTo, pp.PrecededBy, pp.AtLineStart, pp.AtStringStart, pp.Each)):
